@@ -35,35 +35,55 @@ func (d deepInstr) guards() []Atom {
 // condition it would see if the helper's body stood in the caller.
 func (d deepInstr) rawGuards() []rawGuard {
 	var out []rawGuard
-	for _, cs := range d.chain {
-		out = append(out, rawGuardsAt(cs.Block())...)
-	}
-	inner := rawGuardsAt(d.in.Block())
-	if len(d.chain) == 0 {
-		return append(out, inner...)
-	}
-	call := callCommon(d.chain[len(d.chain)-1])
-	h := d.in.Parent()
-	for _, g := range inner {
-		cond, pos := g.Cond, g.Positive
-		for {
-			u, ok := cond.(*ssa.UnOp)
-			if !ok || u.Op != token.NOT {
-				break
-			}
-			cond, pos = u.X, !pos
+	// level j: the block holding call site j of the chain (j < len) or the instruction itself (j == len);
+	// for j >= 1 it lies in the helper called at chain[j-1]
+	for j := 0; j <= len(d.chain); j++ {
+		var blk *ssa.BasicBlock
+		if j < len(d.chain) {
+			blk = d.chain[j].Block()
+		} else {
+			blk = d.in.Block()
 		}
-		if pa, ok := cond.(*ssa.Parameter); ok && call != nil && h != nil {
-			for i, q := range h.Params {
-				if q == pa && i < len(call.Args) {
-					out = append(out, expandCond(call.Args[i], pos, 0)...)
-				}
-			}
-			continue
+		for _, g := range rawGuardsAt(blk) {
+			out = append(out, d.bindUp(g, j)...)
 		}
-		out = append(out, g)
 	}
 	return out
+}
+
+// bindUp: a condition known at level j, with a test of a boolean parameter replaced by the argument
+// passed at the call one level up (and so on upwards while it is again a parameter).
+func (d deepInstr) bindUp(g rawGuard, j int) []rawGuard {
+	if j == 0 {
+		return []rawGuard{g}
+	}
+	cond, pos := g.Cond, g.Positive
+	for {
+		u, ok := cond.(*ssa.UnOp)
+		if !ok || u.Op != token.NOT {
+			break
+		}
+		cond, pos = u.X, !pos
+	}
+	pa, ok := cond.(*ssa.Parameter)
+	if !ok {
+		return []rawGuard{g}
+	}
+	call := callCommon(d.chain[j-1])
+	h := pa.Parent()
+	if call == nil || h == nil {
+		return []rawGuard{g}
+	}
+	for i, q := range h.Params {
+		if q == pa && i < len(call.Args) {
+			var out []rawGuard
+			for _, e := range expandCond(call.Args[i], pos, 0) {
+				out = append(out, d.bindUp(e, j-1)...)
+			}
+			return out
+		}
+	}
+	return []rawGuard{g}
 }
 
 // atoms: rawGuards as printable atoms.
